@@ -162,10 +162,40 @@ def render(insts, hdrs, with_conv):
     return "\n".join(lines) + "\n", ranges
 
 
+IN_SCOPE_DESPITE_MODEL = set()
+UNDECIDED_CONV = []  # (instance, reason): conversion compiles but its DAG cannot be built
+
+
+def probe_scope(ctx, insts, hdrs):
+    """One small translation unit per instance whose conversion the model predicts not to compile:
+    those the compiler accepts are inside the quantifier after all."""
+    from vlib import cxx
+    import os
+    wd = ctx.sub("SCOPE")
+    todo = [i for i in insts if not i.conv_compiles()]
+
+    def one(arg):
+        n, i = arg
+        text, _ = render([i], hdrs, [True])
+        p = os.path.join(wd, "p%d.cc" % n)
+        with open(p, "w") as f:
+            f.write(text)
+        rc, so, se = cxx.run(["clang++", "-std=c++14", "-fsyntax-only", "-w", "-I" + ir.AU_INC, "-I" + ir.VERIF_INC, p])
+        return i.key if rc == 0 else None
+    for k in cxx.pmap(one, list(enumerate(todo))):
+        if k is not None:
+            IN_SCOPE_DESPITE_MODEL.add(k)
+    return len(todo), len(IN_SCOPE_DESPITE_MODEL)
+
+
 def build_module(ctx, insts, hdrs, tag):
     """Lower a chunk of instances; instances whose conversion (or checker) does not compile are
     dropped (returned separately)."""
-    with_conv = [i.conv_compiles() for i in insts]
+    # Whether a conversion is inside the quantifier ("the conversion compiles") is asked of the
+    # LIBRARY: the model's prediction is only the first guess; every instance it predicts NOT to
+    # compile has been put to the compiler on its own (probe_scope), and an instance predicted to
+    # compile loses its conversion wrappers below if the compiler refuses them.
+    with_conv = [i.conv_compiles() or i.key in IN_SCOPE_DESPITE_MODEL for i in insts]
     alive = list(range(len(insts)))
     dropped = []
     for attempt in range(4):
@@ -292,7 +322,20 @@ def analyse_instance(ctx, mod, k, inst, has_conv, findings):
         f = mod.funcs.get("%s_%d" % (nm, k))
         if f is None:
             raise AnalysisBroken("wrapper %s_%d missing from IR" % (nm, k))
-        d = dag.build(f, mod)
+        try:
+            d = dag.build(f, mod)
+        except AnalysisBroken as e:
+            if nm not in ("conv", "convas"):
+                raise
+            # the conversion compiles (so the instance is inside the quantifier) but its IR is
+            # outside the analysable fragment: the checkers are still decided against the exact
+            # model (C04); C03 has no verdict for this instance
+            UNDECIDED_CONV.append((inst.key, str(e)))
+            has_conv = False
+            for cn in ("conv", "convas"):
+                dags.pop(cn, None)
+                roots.pop(cn, None)
+            continue
         dags[nm] = d
         roots[nm] = d.ret
     rv = {"conv": (bits, signed), "convas": (bits, signed)} if has_conv else {}
@@ -497,7 +540,8 @@ def run(ctx, prop):
     hdrs = atoms.unit_includes(units)
     atoms.readout_units(ctx, units, witness.DEFAULT_PRELUDE + hdrs)
     insts = grid(ctx, units, rnd)
-    ctx.log("%d instances (T, N/D)" % len(insts))
+    nprobe, ninscope = probe_scope(ctx, insts, hdrs)
+    ctx.log("%d instances (T, N/D); %d predicted outside the quantifier put to the compiler, %d of them compile after all" % (len(insts), nprobe, ninscope))
     chunks = [insts[i:i + 24] for i in range(0, len(insts), 24)]
     findings = []
     stats = dict(instances=0, dropped=0, without_conv=0, cells=0, obligations=0, discharged=0, functions=0)
@@ -533,6 +577,10 @@ def run(ctx, prop):
     ctx.require(stats["instances"] >= (200 if not ctx.thorough else 1500),
                 "only %d instances analysed" % stats["instances"])
     # report only this property's findings; the other property's are counted
+    if UNDECIDED_CONV:
+        ctx.log("%d conversions compile but are outside the analysable IR fragment, first: %s" % (len(UNDECIDED_CONV), UNDECIDED_CONV[0]))
+        if prop == "C03" and not [f for f in findings if f[0] == "C03"]:
+            raise AnalysisBroken("%d conversions cannot be analysed (no verdict on exactness), first: %s: %s" % ((len(UNDECIDED_CONV),) + UNDECIDED_CONV[0]))
     mine = [f for f in findings if f[0] == prop]
     other = [f for f in findings if f[0] != prop]
     for (p, key, kind, x, what) in mine:
